@@ -5520,6 +5520,11 @@ def aten_isclose(
     left_part = op.Abs(op.Sub(self, other))
     right_part = op.Add(atol, op.Mul(rtol, op.Abs(other)))
     result = op.LessOrEqual(left_part, right_part)
+    # As in PyTorch: an infinite difference is never within tolerance (isclose(inf, -inf) is False even though
+    # rtol * |other| is inf), and equal values are close (equal infinities, for which inf - inf is NaN).
+    # error - error is 0 exactly when the error is finite; this also works for integer inputs, unlike IsInf.
+    error_is_finite = op.Equal(op.Sub(left_part, left_part), op.CastLike(0, left_part))
+    result = op.Or(op.Equal(self, other), op.And(error_is_finite, result))
     return result
 
 
